@@ -242,6 +242,7 @@ package stick
 //@   propagates
 //@   ensures wfail: wfail() && !old(wfail()) ==> err != nil
 //@   ensures order: wafterfail() ==> old(wafterfail()) || old(wfail())
+//@   ensures files: openfiles() == old(openfiles())
 //@   requires node: node != nil
 //@   requires xinv(s)
 //@   ensures inv: xinv(s)
@@ -255,13 +256,14 @@ package stick
 // A11 (trusted, not proved): states are separate — executing on one state does not modify the list of
 // scope maps of another state's scope stack (ownership of backing arrays is not modelled).
 //@   trusts sep: forall p, i :: allocated(p) && p != old(s.scope) && 0 <= i && i < old(len(fld("stick.scopeStack", "scopes", p))) ==> fld("stick.scopeStack", "scopes", p)[i] == old(fld("stick.scopeStack", "scopes", p)[i])
-//@   loop 1 invariant frame: xinv(s) && s.scope == old(s.scope) && len(s.scope.scopes) == old(len(s.scope.scopes)) && (forall i trig :: 0 <= i && i < len(s.scope.scopes) ==> s.scope.scopes[i] == old(s.scope.scopes[i])) && s.name == old(s.name) && s.current == old(s.current) && s.env == old(s.env) && len(s.blocks) >= old(len(s.blocks)) && (forall p trig :: allocated(p) && p != old(s.scope) ==> fld("stick.scopeStack", "scopes", p) == old(fld("stick.scopeStack", "scopes", p))) && s.out == old(s.out) && (forall w trig :: allocated(w) && w != ref(old(s.out)) ==> rbuflen(w) == old(rbuflen(w)) && rbufdata(w) == old(rbufdata(w))) && (wfail() ==> old(wfail())) && (wafterfail() ==> old(wafterfail()) || old(wfail()))
-//@   loop 2 invariant frame: xinv(s) && s.scope == old(s.scope) && len(s.scope.scopes) == old(len(s.scope.scopes)) && (forall i trig :: 0 <= i && i < len(s.scope.scopes) ==> s.scope.scopes[i] == old(s.scope.scopes[i])) && s.name == old(s.name) && s.current == old(s.current) && s.env == old(s.env) && len(s.blocks) >= old(len(s.blocks)) && (forall p trig :: allocated(p) && p != old(s.scope) ==> fld("stick.scopeStack", "scopes", p) == old(fld("stick.scopeStack", "scopes", p))) && s.out == old(s.out) && (forall w trig :: allocated(w) && w != ref(old(s.out)) ==> rbuflen(w) == old(rbuflen(w)) && rbufdata(w) == old(rbufdata(w))) && (wfail() ==> old(wfail())) && (wafterfail() ==> old(wafterfail()) || old(wfail()))
+//@   loop 1 invariant frame: xinv(s) && s.scope == old(s.scope) && len(s.scope.scopes) == old(len(s.scope.scopes)) && (forall i trig :: 0 <= i && i < len(s.scope.scopes) ==> s.scope.scopes[i] == old(s.scope.scopes[i])) && s.name == old(s.name) && s.current == old(s.current) && s.env == old(s.env) && len(s.blocks) >= old(len(s.blocks)) && (forall p trig :: allocated(p) && p != old(s.scope) ==> fld("stick.scopeStack", "scopes", p) == old(fld("stick.scopeStack", "scopes", p))) && s.out == old(s.out) && (forall w trig :: allocated(w) && w != ref(old(s.out)) ==> rbuflen(w) == old(rbuflen(w)) && rbufdata(w) == old(rbufdata(w))) && (wfail() ==> old(wfail())) && openfiles() == old(openfiles()) && (wafterfail() ==> old(wafterfail()) || old(wfail()))
+//@   loop 2 invariant frame: xinv(s) && s.scope == old(s.scope) && len(s.scope.scopes) == old(len(s.scope.scopes)) && (forall i trig :: 0 <= i && i < len(s.scope.scopes) ==> s.scope.scopes[i] == old(s.scope.scopes[i])) && s.name == old(s.name) && s.current == old(s.current) && s.env == old(s.env) && len(s.blocks) >= old(len(s.blocks)) && (forall p trig :: allocated(p) && p != old(s.scope) ==> fld("stick.scopeStack", "scopes", p) == old(fld("stick.scopeStack", "scopes", p))) && s.out == old(s.out) && (forall w trig :: allocated(w) && w != ref(old(s.out)) ==> rbuflen(w) == old(rbuflen(w)) && rbufdata(w) == old(rbufdata(w))) && (wfail() ==> old(wfail())) && openfiles() == old(openfiles()) && (wafterfail() ==> old(wafterfail()) || old(wfail()))
 
 //@ func stick.(*state).walkChild
 //@   propagates
 //@   ensures wfail: wfail() && !old(wfail()) ==> err != nil
 //@   ensures order: wafterfail() ==> old(wafterfail()) || old(wfail())
+//@   ensures files: openfiles() == old(openfiles())
 //@   requires xinv(s)
 //@   ensures inv: xinv(s)
 //@   ensures out: err == nil ==> s.out == old(s.out)
@@ -274,7 +276,7 @@ package stick
 // A11 (trusted, not proved): states are separate — executing on one state does not modify the list of
 // scope maps of another state's scope stack (ownership of backing arrays is not modelled).
 //@   trusts sep: forall p, i :: allocated(p) && p != old(s.scope) && 0 <= i && i < old(len(fld("stick.scopeStack", "scopes", p))) ==> fld("stick.scopeStack", "scopes", p)[i] == old(fld("stick.scopeStack", "scopes", p)[i])
-//@   loop 1 invariant frame: xinv(s) && s.scope == old(s.scope) && len(s.scope.scopes) == old(len(s.scope.scopes)) && (forall i trig :: 0 <= i && i < len(s.scope.scopes) ==> s.scope.scopes[i] == old(s.scope.scopes[i])) && s.name == old(s.name) && s.current == old(s.current) && s.env == old(s.env) && len(s.blocks) >= old(len(s.blocks)) && (forall p trig :: allocated(p) && p != old(s.scope) ==> fld("stick.scopeStack", "scopes", p) == old(fld("stick.scopeStack", "scopes", p))) && s.out == old(s.out) && (forall w trig :: allocated(w) && w != ref(old(s.out)) ==> rbuflen(w) == old(rbuflen(w)) && rbufdata(w) == old(rbufdata(w))) && (wfail() ==> old(wfail())) && (wafterfail() ==> old(wafterfail()) || old(wfail()))
+//@   loop 1 invariant frame: xinv(s) && s.scope == old(s.scope) && len(s.scope.scopes) == old(len(s.scope.scopes)) && (forall i trig :: 0 <= i && i < len(s.scope.scopes) ==> s.scope.scopes[i] == old(s.scope.scopes[i])) && s.name == old(s.name) && s.current == old(s.current) && s.env == old(s.env) && len(s.blocks) >= old(len(s.blocks)) && (forall p trig :: allocated(p) && p != old(s.scope) ==> fld("stick.scopeStack", "scopes", p) == old(fld("stick.scopeStack", "scopes", p))) && s.out == old(s.out) && (forall w trig :: allocated(w) && w != ref(old(s.out)) ==> rbuflen(w) == old(rbuflen(w)) && rbufdata(w) == old(rbufdata(w))) && (wfail() ==> old(wfail())) && openfiles() == old(openfiles()) && (wafterfail() ==> old(wafterfail()) || old(wfail()))
 
 //@ func stick.(*state).walkForNode
 // C07: the loop's key, value and loop variables are bound with setLocal in the scope pushed by this very iteration
@@ -289,11 +291,12 @@ package stick
 //@   propagates
 //@   ensures wfail: wfail() && !old(wfail()) ==> err != nil
 //@   ensures order: wafterfail() ==> old(wafterfail()) || old(wfail())
+//@   ensures files: openfiles() == old(openfiles())
 // Iterate and the per-element closure are expanded here, so that the loop over the elements is verified
 // with this function's frame invariants (scope balance per iteration: C07) next to Iterate's own.
 //@   inlines stick.Iterate
-//@   loop stick.Iterate:1 invariant frame: xinv(s) && s.scope == old(s.scope) && len(s.scope.scopes) == old(len(s.scope.scopes)) && (forall i trig :: 0 <= i && i < len(s.scope.scopes) ==> s.scope.scopes[i] == old(s.scope.scopes[i])) && s.name == old(s.name) && s.current == old(s.current) && s.env == old(s.env) && len(s.blocks) >= old(len(s.blocks)) && (forall p trig :: allocated(p) && p != old(s.scope) ==> fld("stick.scopeStack", "scopes", p) == old(fld("stick.scopeStack", "scopes", p))) && s.out == old(s.out) && (forall w trig :: allocated(w) && w != ref(old(s.out)) ==> rbuflen(w) == old(rbuflen(w)) && rbufdata(w) == old(rbufdata(w))) && (wfail() ==> old(wfail())) && (wafterfail() ==> old(wafterfail()) || old(wfail()))
-//@   loop stick.Iterate:2 invariant frame: xinv(s) && s.scope == old(s.scope) && len(s.scope.scopes) == old(len(s.scope.scopes)) && (forall i trig :: 0 <= i && i < len(s.scope.scopes) ==> s.scope.scopes[i] == old(s.scope.scopes[i])) && s.name == old(s.name) && s.current == old(s.current) && s.env == old(s.env) && len(s.blocks) >= old(len(s.blocks)) && (forall p trig :: allocated(p) && p != old(s.scope) ==> fld("stick.scopeStack", "scopes", p) == old(fld("stick.scopeStack", "scopes", p))) && s.out == old(s.out) && (forall w trig :: allocated(w) && w != ref(old(s.out)) ==> rbuflen(w) == old(rbuflen(w)) && rbufdata(w) == old(rbufdata(w))) && (wfail() ==> old(wfail())) && (wafterfail() ==> old(wafterfail()) || old(wfail()))
+//@   loop stick.Iterate:1 invariant frame: xinv(s) && s.scope == old(s.scope) && len(s.scope.scopes) == old(len(s.scope.scopes)) && (forall i trig :: 0 <= i && i < len(s.scope.scopes) ==> s.scope.scopes[i] == old(s.scope.scopes[i])) && s.name == old(s.name) && s.current == old(s.current) && s.env == old(s.env) && len(s.blocks) >= old(len(s.blocks)) && (forall p trig :: allocated(p) && p != old(s.scope) ==> fld("stick.scopeStack", "scopes", p) == old(fld("stick.scopeStack", "scopes", p))) && s.out == old(s.out) && (forall w trig :: allocated(w) && w != ref(old(s.out)) ==> rbuflen(w) == old(rbuflen(w)) && rbufdata(w) == old(rbufdata(w))) && (wfail() ==> old(wfail())) && openfiles() == old(openfiles()) && (wafterfail() ==> old(wafterfail()) || old(wfail()))
+//@   loop stick.Iterate:2 invariant frame: xinv(s) && s.scope == old(s.scope) && len(s.scope.scopes) == old(len(s.scope.scopes)) && (forall i trig :: 0 <= i && i < len(s.scope.scopes) ==> s.scope.scopes[i] == old(s.scope.scopes[i])) && s.name == old(s.name) && s.current == old(s.current) && s.env == old(s.env) && len(s.blocks) >= old(len(s.blocks)) && (forall p trig :: allocated(p) && p != old(s.scope) ==> fld("stick.scopeStack", "scopes", p) == old(fld("stick.scopeStack", "scopes", p))) && s.out == old(s.out) && (forall w trig :: allocated(w) && w != ref(old(s.out)) ==> rbuflen(w) == old(rbuflen(w)) && rbufdata(w) == old(rbufdata(w))) && (wfail() ==> old(wfail())) && openfiles() == old(openfiles()) && (wafterfail() ==> old(wafterfail()) || old(wfail()))
 //@   requires xinv(s)
 //@   ensures inv: xinv(s)
 //@   ensures out: err == nil ==> s.out == old(s.out)
@@ -311,6 +314,7 @@ package stick
 //@   propagates
 //@   ensures wfail: wfail() && !old(wfail()) ==> err != nil
 //@   ensures order: wafterfail() ==> old(wafterfail()) || old(wfail())
+//@   ensures files: openfiles() == old(openfiles())
 //@   ensures ctx: err == nil ==> ctx != nil && fresh(ctx)
 //@   requires xinv(s)
 //@   ensures inv: xinv(s)
@@ -324,14 +328,15 @@ package stick
 // A11 (trusted, not proved): states are separate — executing on one state does not modify the list of
 // scope maps of another state's scope stack (ownership of backing arrays is not modelled).
 //@   trusts sep: forall p, i :: allocated(p) && p != old(s.scope) && 0 <= i && i < old(len(fld("stick.scopeStack", "scopes", p))) ==> fld("stick.scopeStack", "scopes", p)[i] == old(fld("stick.scopeStack", "scopes", p)[i])
-//@   loop 1 invariant frame: xinv(s) && s.scope == old(s.scope) && len(s.scope.scopes) == old(len(s.scope.scopes)) && (forall i trig :: 0 <= i && i < len(s.scope.scopes) ==> s.scope.scopes[i] == old(s.scope.scopes[i])) && s.name == old(s.name) && s.current == old(s.current) && s.env == old(s.env) && len(s.blocks) >= old(len(s.blocks)) && (forall p trig :: allocated(p) && p != old(s.scope) ==> fld("stick.scopeStack", "scopes", p) == old(fld("stick.scopeStack", "scopes", p))) && s.out == old(s.out) && (forall w trig :: allocated(w) && w != ref(old(s.out)) ==> rbuflen(w) == old(rbuflen(w)) && rbufdata(w) == old(rbufdata(w))) && (wfail() ==> old(wfail())) && (wafterfail() ==> old(wafterfail()) || old(wfail()))
-//@   loop 2 invariant frame: xinv(s) && s.scope == old(s.scope) && len(s.scope.scopes) == old(len(s.scope.scopes)) && (forall i trig :: 0 <= i && i < len(s.scope.scopes) ==> s.scope.scopes[i] == old(s.scope.scopes[i])) && s.name == old(s.name) && s.current == old(s.current) && s.env == old(s.env) && len(s.blocks) >= old(len(s.blocks)) && (forall p trig :: allocated(p) && p != old(s.scope) ==> fld("stick.scopeStack", "scopes", p) == old(fld("stick.scopeStack", "scopes", p))) && s.out == old(s.out) && (forall w trig :: allocated(w) && w != ref(old(s.out)) ==> rbuflen(w) == old(rbuflen(w)) && rbufdata(w) == old(rbufdata(w))) && (wfail() ==> old(wfail())) && (wafterfail() ==> old(wafterfail()) || old(wfail()))
-//@   loop 3 invariant frame: xinv(s) && s.scope == old(s.scope) && len(s.scope.scopes) == old(len(s.scope.scopes)) && (forall i trig :: 0 <= i && i < len(s.scope.scopes) ==> s.scope.scopes[i] == old(s.scope.scopes[i])) && s.name == old(s.name) && s.current == old(s.current) && s.env == old(s.env) && len(s.blocks) >= old(len(s.blocks)) && (forall p trig :: allocated(p) && p != old(s.scope) ==> fld("stick.scopeStack", "scopes", p) == old(fld("stick.scopeStack", "scopes", p))) && s.out == old(s.out) && (forall w trig :: allocated(w) && w != ref(old(s.out)) ==> rbuflen(w) == old(rbuflen(w)) && rbufdata(w) == old(rbufdata(w))) && (wfail() ==> old(wfail())) && (wafterfail() ==> old(wafterfail()) || old(wfail()))
+//@   loop 1 invariant frame: xinv(s) && s.scope == old(s.scope) && len(s.scope.scopes) == old(len(s.scope.scopes)) && (forall i trig :: 0 <= i && i < len(s.scope.scopes) ==> s.scope.scopes[i] == old(s.scope.scopes[i])) && s.name == old(s.name) && s.current == old(s.current) && s.env == old(s.env) && len(s.blocks) >= old(len(s.blocks)) && (forall p trig :: allocated(p) && p != old(s.scope) ==> fld("stick.scopeStack", "scopes", p) == old(fld("stick.scopeStack", "scopes", p))) && s.out == old(s.out) && (forall w trig :: allocated(w) && w != ref(old(s.out)) ==> rbuflen(w) == old(rbuflen(w)) && rbufdata(w) == old(rbufdata(w))) && (wfail() ==> old(wfail())) && openfiles() == old(openfiles()) && (wafterfail() ==> old(wafterfail()) || old(wfail()))
+//@   loop 2 invariant frame: xinv(s) && s.scope == old(s.scope) && len(s.scope.scopes) == old(len(s.scope.scopes)) && (forall i trig :: 0 <= i && i < len(s.scope.scopes) ==> s.scope.scopes[i] == old(s.scope.scopes[i])) && s.name == old(s.name) && s.current == old(s.current) && s.env == old(s.env) && len(s.blocks) >= old(len(s.blocks)) && (forall p trig :: allocated(p) && p != old(s.scope) ==> fld("stick.scopeStack", "scopes", p) == old(fld("stick.scopeStack", "scopes", p))) && s.out == old(s.out) && (forall w trig :: allocated(w) && w != ref(old(s.out)) ==> rbuflen(w) == old(rbuflen(w)) && rbufdata(w) == old(rbufdata(w))) && (wfail() ==> old(wfail())) && openfiles() == old(openfiles()) && (wafterfail() ==> old(wafterfail()) || old(wfail()))
+//@   loop 3 invariant frame: xinv(s) && s.scope == old(s.scope) && len(s.scope.scopes) == old(len(s.scope.scopes)) && (forall i trig :: 0 <= i && i < len(s.scope.scopes) ==> s.scope.scopes[i] == old(s.scope.scopes[i])) && s.name == old(s.name) && s.current == old(s.current) && s.env == old(s.env) && len(s.blocks) >= old(len(s.blocks)) && (forall p trig :: allocated(p) && p != old(s.scope) ==> fld("stick.scopeStack", "scopes", p) == old(fld("stick.scopeStack", "scopes", p))) && s.out == old(s.out) && (forall w trig :: allocated(w) && w != ref(old(s.out)) ==> rbuflen(w) == old(rbuflen(w)) && rbufdata(w) == old(rbufdata(w))) && (wfail() ==> old(wfail())) && openfiles() == old(openfiles()) && (wafterfail() ==> old(wafterfail()) || old(wfail()))
 
 //@ func stick.(*state).walkUseNode
 //@   propagates
 //@   ensures wfail: wfail() && !old(wfail()) ==> err != nil
 //@   ensures order: wafterfail() ==> old(wafterfail()) || old(wfail())
+//@   ensures files: openfiles() == old(openfiles())
 //@   requires xinv(s)
 //@   ensures inv: xinv(s)
 //@   ensures out: err == nil ==> s.out == old(s.out)
@@ -344,7 +349,7 @@ package stick
 // A11 (trusted, not proved): states are separate — executing on one state does not modify the list of
 // scope maps of another state's scope stack (ownership of backing arrays is not modelled).
 //@   trusts sep: forall p, i :: allocated(p) && p != old(s.scope) && 0 <= i && i < old(len(fld("stick.scopeStack", "scopes", p))) ==> fld("stick.scopeStack", "scopes", p)[i] == old(fld("stick.scopeStack", "scopes", p)[i])
-//@   loop 1 invariant frame: xinv(s) && s.scope == old(s.scope) && len(s.scope.scopes) == old(len(s.scope.scopes)) && (forall i trig :: 0 <= i && i < len(s.scope.scopes) ==> s.scope.scopes[i] == old(s.scope.scopes[i])) && s.name == old(s.name) && s.current == old(s.current) && s.env == old(s.env) && len(s.blocks) >= old(len(s.blocks)) && (forall p trig :: allocated(p) && p != old(s.scope) ==> fld("stick.scopeStack", "scopes", p) == old(fld("stick.scopeStack", "scopes", p))) && s.out == old(s.out) && (forall w trig :: allocated(w) && w != ref(old(s.out)) ==> rbuflen(w) == old(rbuflen(w)) && rbufdata(w) == old(rbufdata(w))) && (wfail() ==> old(wfail())) && (wafterfail() ==> old(wafterfail()) || old(wfail()))
+//@   loop 1 invariant frame: xinv(s) && s.scope == old(s.scope) && len(s.scope.scopes) == old(len(s.scope.scopes)) && (forall i trig :: 0 <= i && i < len(s.scope.scopes) ==> s.scope.scopes[i] == old(s.scope.scopes[i])) && s.name == old(s.name) && s.current == old(s.current) && s.env == old(s.env) && len(s.blocks) >= old(len(s.blocks)) && (forall p trig :: allocated(p) && p != old(s.scope) ==> fld("stick.scopeStack", "scopes", p) == old(fld("stick.scopeStack", "scopes", p))) && s.out == old(s.out) && (forall w trig :: allocated(w) && w != ref(old(s.out)) ==> rbuflen(w) == old(rbuflen(w)) && rbufdata(w) == old(rbufdata(w))) && (wfail() ==> old(wfail())) && openfiles() == old(openfiles()) && (wafterfail() ==> old(wafterfail()) || old(wfail()))
 
 //@ func stick.(*state).walkSetNode
 // C08: a set..endset capture assigns exactly what the body wrote into the private buffer
@@ -352,6 +357,7 @@ package stick
 //@   propagates
 //@   ensures wfail: wfail() && !old(wfail()) ==> err != nil
 //@   ensures order: wafterfail() ==> old(wafterfail()) || old(wfail())
+//@   ensures files: openfiles() == old(openfiles())
 //@   requires xinv(s)
 //@   ensures inv: xinv(s)
 //@   ensures out: err == nil ==> s.out == old(s.out)
@@ -369,6 +375,7 @@ package stick
 //@   propagates
 //@   ensures wfail: wfail() && !old(wfail()) ==> err != nil
 //@   ensures order: wafterfail() ==> old(wafterfail()) || old(wfail())
+//@   ensures files: openfiles() == old(openfiles())
 //@   requires xinv(s)
 //@   ensures inv: xinv(s)
 //@   ensures out: err == nil ==> s.out == old(s.out)
@@ -390,6 +397,7 @@ package stick
 //@   propagates
 //@   ensures wfail: wfail() && !old(wfail()) ==> err != nil
 //@   ensures order: wafterfail() ==> old(wafterfail()) || old(wfail())
+//@   ensures files: openfiles() == old(openfiles())
 //@   reveal cbOK
 //@   requires xinv(s)
 //@   ensures inv: xinv(s)
@@ -403,12 +411,13 @@ package stick
 // A11 (trusted, not proved): states are separate — executing on one state does not modify the list of
 // scope maps of another state's scope stack (ownership of backing arrays is not modelled).
 //@   trusts sep: forall p, i :: allocated(p) && p != old(s.scope) && 0 <= i && i < old(len(fld("stick.scopeStack", "scopes", p))) ==> fld("stick.scopeStack", "scopes", p)[i] == old(fld("stick.scopeStack", "scopes", p)[i])
-//@   loop 1 invariant frame: xinv(s) && s.scope == old(s.scope) && len(s.scope.scopes) == old(len(s.scope.scopes)) && (forall i trig :: 0 <= i && i < len(s.scope.scopes) ==> s.scope.scopes[i] == old(s.scope.scopes[i])) && s.name == old(s.name) && s.current == old(s.current) && s.env == old(s.env) && len(s.blocks) >= old(len(s.blocks)) && (forall p trig :: allocated(p) && p != old(s.scope) ==> fld("stick.scopeStack", "scopes", p) == old(fld("stick.scopeStack", "scopes", p))) && (forall w trig :: allocated(w) ==> rbuflen(w) == old(rbuflen(w)) && rbufdata(w) == old(rbufdata(w))) && (wfail() ==> old(wfail())) && (wafterfail() ==> old(wafterfail()) || old(wfail()))
+//@   loop 1 invariant frame: xinv(s) && s.scope == old(s.scope) && len(s.scope.scopes) == old(len(s.scope.scopes)) && (forall i trig :: 0 <= i && i < len(s.scope.scopes) ==> s.scope.scopes[i] == old(s.scope.scopes[i])) && s.name == old(s.name) && s.current == old(s.current) && s.env == old(s.env) && len(s.blocks) >= old(len(s.blocks)) && (forall p trig :: allocated(p) && p != old(s.scope) ==> fld("stick.scopeStack", "scopes", p) == old(fld("stick.scopeStack", "scopes", p))) && (forall w trig :: allocated(w) ==> rbuflen(w) == old(rbuflen(w)) && rbufdata(w) == old(rbufdata(w))) && (wfail() ==> old(wfail())) && openfiles() == old(openfiles()) && (wafterfail() ==> old(wafterfail()) || old(wfail()))
 
 //@ func stick.(*state).walkImportNode
 //@   propagates
 //@   ensures wfail: wfail() && !old(wfail()) ==> err != nil
 //@   ensures order: wafterfail() ==> old(wafterfail()) || old(wfail())
+//@   ensures files: openfiles() == old(openfiles())
 //@   requires xinv(s)
 //@   ensures inv: xinv(s)
 //@   ensures out: err == nil ==> s.out == old(s.out)
@@ -421,12 +430,13 @@ package stick
 // A11 (trusted, not proved): states are separate — executing on one state does not modify the list of
 // scope maps of another state's scope stack (ownership of backing arrays is not modelled).
 //@   trusts sep: forall p, i :: allocated(p) && p != old(s.scope) && 0 <= i && i < old(len(fld("stick.scopeStack", "scopes", p))) ==> fld("stick.scopeStack", "scopes", p)[i] == old(fld("stick.scopeStack", "scopes", p)[i])
-//@   loop 1 invariant frame: xinv(s) && s.scope == old(s.scope) && len(s.scope.scopes) == old(len(s.scope.scopes)) && (forall i trig :: 0 <= i && i < len(s.scope.scopes) ==> s.scope.scopes[i] == old(s.scope.scopes[i])) && s.name == old(s.name) && s.current == old(s.current) && s.env == old(s.env) && len(s.blocks) >= old(len(s.blocks)) && (forall p trig :: allocated(p) && p != old(s.scope) ==> fld("stick.scopeStack", "scopes", p) == old(fld("stick.scopeStack", "scopes", p))) && s.out == old(s.out) && (forall w trig :: allocated(w) && w != ref(old(s.out)) ==> rbuflen(w) == old(rbuflen(w)) && rbufdata(w) == old(rbufdata(w))) && (wfail() ==> old(wfail())) && (wafterfail() ==> old(wafterfail()) || old(wfail()))
+//@   loop 1 invariant frame: xinv(s) && s.scope == old(s.scope) && len(s.scope.scopes) == old(len(s.scope.scopes)) && (forall i trig :: 0 <= i && i < len(s.scope.scopes) ==> s.scope.scopes[i] == old(s.scope.scopes[i])) && s.name == old(s.name) && s.current == old(s.current) && s.env == old(s.env) && len(s.blocks) >= old(len(s.blocks)) && (forall p trig :: allocated(p) && p != old(s.scope) ==> fld("stick.scopeStack", "scopes", p) == old(fld("stick.scopeStack", "scopes", p))) && s.out == old(s.out) && (forall w trig :: allocated(w) && w != ref(old(s.out)) ==> rbuflen(w) == old(rbuflen(w)) && rbufdata(w) == old(rbufdata(w))) && (wfail() ==> old(wfail())) && openfiles() == old(openfiles()) && (wafterfail() ==> old(wafterfail()) || old(wfail()))
 
 //@ func stick.(*state).walkFromNode
 //@   propagates
 //@   ensures wfail: wfail() && !old(wfail()) ==> err != nil
 //@   ensures order: wafterfail() ==> old(wafterfail()) || old(wfail())
+//@   ensures files: openfiles() == old(openfiles())
 //@   requires xinv(s)
 //@   ensures inv: xinv(s)
 //@   ensures out: err == nil ==> s.out == old(s.out)
@@ -439,13 +449,14 @@ package stick
 // A11 (trusted, not proved): states are separate — executing on one state does not modify the list of
 // scope maps of another state's scope stack (ownership of backing arrays is not modelled).
 //@   trusts sep: forall p, i :: allocated(p) && p != old(s.scope) && 0 <= i && i < old(len(fld("stick.scopeStack", "scopes", p))) ==> fld("stick.scopeStack", "scopes", p)[i] == old(fld("stick.scopeStack", "scopes", p)[i])
-//@   loop 1 invariant frame: xinv(s) && s.scope == old(s.scope) && len(s.scope.scopes) == old(len(s.scope.scopes)) && (forall i trig :: 0 <= i && i < len(s.scope.scopes) ==> s.scope.scopes[i] == old(s.scope.scopes[i])) && s.name == old(s.name) && s.current == old(s.current) && s.env == old(s.env) && len(s.blocks) >= old(len(s.blocks)) && (forall p trig :: allocated(p) && p != old(s.scope) ==> fld("stick.scopeStack", "scopes", p) == old(fld("stick.scopeStack", "scopes", p))) && s.out == old(s.out) && (forall w trig :: allocated(w) && w != ref(old(s.out)) ==> rbuflen(w) == old(rbuflen(w)) && rbufdata(w) == old(rbufdata(w))) && (wfail() ==> old(wfail())) && (wafterfail() ==> old(wafterfail()) || old(wfail()))
+//@   loop 1 invariant frame: xinv(s) && s.scope == old(s.scope) && len(s.scope.scopes) == old(len(s.scope.scopes)) && (forall i trig :: 0 <= i && i < len(s.scope.scopes) ==> s.scope.scopes[i] == old(s.scope.scopes[i])) && s.name == old(s.name) && s.current == old(s.current) && s.env == old(s.env) && len(s.blocks) >= old(len(s.blocks)) && (forall p trig :: allocated(p) && p != old(s.scope) ==> fld("stick.scopeStack", "scopes", p) == old(fld("stick.scopeStack", "scopes", p))) && s.out == old(s.out) && (forall w trig :: allocated(w) && w != ref(old(s.out)) ==> rbuflen(w) == old(rbuflen(w)) && rbufdata(w) == old(rbufdata(w))) && (wfail() ==> old(wfail())) && openfiles() == old(openfiles()) && (wafterfail() ==> old(wafterfail()) || old(wfail()))
 
 //@ func stick.(*state).evalExpr
 // (the lookup error of GetAttr is discarded by design: missing attributes render empty, C16)
 //@   propagates except GetAttr(, errors.New("undefinedvariable
 //@   ensures wfail: wfail() && !old(wfail()) ==> err != nil
 //@   ensures order: wafterfail() ==> old(wafterfail()) || old(wfail())
+//@   ensures files: openfiles() == old(openfiles())
 //@   reveal cbOK
 //@   requires xinv(s)
 //@   ensures inv: xinv(s)
@@ -459,11 +470,11 @@ package stick
 // A11 (trusted, not proved): states are separate — executing on one state does not modify the list of
 // scope maps of another state's scope stack (ownership of backing arrays is not modelled).
 //@   trusts sep: forall p, i :: allocated(p) && p != old(s.scope) && 0 <= i && i < old(len(fld("stick.scopeStack", "scopes", p))) ==> fld("stick.scopeStack", "scopes", p)[i] == old(fld("stick.scopeStack", "scopes", p)[i])
-//@   loop 1 invariant frame: xinv(s) && s.scope == old(s.scope) && len(s.scope.scopes) == old(len(s.scope.scopes)) && (forall i trig :: 0 <= i && i < len(s.scope.scopes) ==> s.scope.scopes[i] == old(s.scope.scopes[i])) && s.name == old(s.name) && s.current == old(s.current) && s.env == old(s.env) && len(s.blocks) >= old(len(s.blocks)) && (forall p trig :: allocated(p) && p != old(s.scope) ==> fld("stick.scopeStack", "scopes", p) == old(fld("stick.scopeStack", "scopes", p))) && s.out == old(s.out) && (forall w trig :: allocated(w) ==> rbuflen(w) == old(rbuflen(w)) && rbufdata(w) == old(rbufdata(w))) && (wfail() ==> old(wfail())) && (wafterfail() ==> old(wafterfail()) || old(wfail()))
-//@   loop 2 invariant frame: xinv(s) && s.scope == old(s.scope) && len(s.scope.scopes) == old(len(s.scope.scopes)) && (forall i trig :: 0 <= i && i < len(s.scope.scopes) ==> s.scope.scopes[i] == old(s.scope.scopes[i])) && s.name == old(s.name) && s.current == old(s.current) && s.env == old(s.env) && len(s.blocks) >= old(len(s.blocks)) && (forall p trig :: allocated(p) && p != old(s.scope) ==> fld("stick.scopeStack", "scopes", p) == old(fld("stick.scopeStack", "scopes", p))) && s.out == old(s.out) && (forall w trig :: allocated(w) ==> rbuflen(w) == old(rbuflen(w)) && rbufdata(w) == old(rbufdata(w))) && (wfail() ==> old(wfail())) && (wafterfail() ==> old(wafterfail()) || old(wfail()))
-//@   loop 3 invariant frame: xinv(s) && s.scope == old(s.scope) && len(s.scope.scopes) == old(len(s.scope.scopes)) && (forall i trig :: 0 <= i && i < len(s.scope.scopes) ==> s.scope.scopes[i] == old(s.scope.scopes[i])) && s.name == old(s.name) && s.current == old(s.current) && s.env == old(s.env) && len(s.blocks) >= old(len(s.blocks)) && (forall p trig :: allocated(p) && p != old(s.scope) ==> fld("stick.scopeStack", "scopes", p) == old(fld("stick.scopeStack", "scopes", p))) && s.out == old(s.out) && (forall w trig :: allocated(w) ==> rbuflen(w) == old(rbuflen(w)) && rbufdata(w) == old(rbufdata(w))) && (wfail() ==> old(wfail())) && (wafterfail() ==> old(wafterfail()) || old(wfail()))
-//@   loop 4 invariant frame: xinv(s) && s.scope == old(s.scope) && len(s.scope.scopes) == old(len(s.scope.scopes)) && (forall i trig :: 0 <= i && i < len(s.scope.scopes) ==> s.scope.scopes[i] == old(s.scope.scopes[i])) && s.name == old(s.name) && s.current == old(s.current) && s.env == old(s.env) && len(s.blocks) >= old(len(s.blocks)) && (forall p trig :: allocated(p) && p != old(s.scope) ==> fld("stick.scopeStack", "scopes", p) == old(fld("stick.scopeStack", "scopes", p))) && s.out == old(s.out) && (forall w trig :: allocated(w) ==> rbuflen(w) == old(rbuflen(w)) && rbufdata(w) == old(rbufdata(w))) && (wfail() ==> old(wfail())) && (wafterfail() ==> old(wafterfail()) || old(wfail()))
-//@   loop 5 invariant frame: xinv(s) && s.scope == old(s.scope) && len(s.scope.scopes) == old(len(s.scope.scopes)) && (forall i trig :: 0 <= i && i < len(s.scope.scopes) ==> s.scope.scopes[i] == old(s.scope.scopes[i])) && s.name == old(s.name) && s.current == old(s.current) && s.env == old(s.env) && len(s.blocks) >= old(len(s.blocks)) && (forall p trig :: allocated(p) && p != old(s.scope) ==> fld("stick.scopeStack", "scopes", p) == old(fld("stick.scopeStack", "scopes", p))) && s.out == old(s.out) && (forall w trig :: allocated(w) ==> rbuflen(w) == old(rbuflen(w)) && rbufdata(w) == old(rbufdata(w))) && (wfail() ==> old(wfail())) && (wafterfail() ==> old(wafterfail()) || old(wfail()))
+//@   loop 1 invariant frame: xinv(s) && s.scope == old(s.scope) && len(s.scope.scopes) == old(len(s.scope.scopes)) && (forall i trig :: 0 <= i && i < len(s.scope.scopes) ==> s.scope.scopes[i] == old(s.scope.scopes[i])) && s.name == old(s.name) && s.current == old(s.current) && s.env == old(s.env) && len(s.blocks) >= old(len(s.blocks)) && (forall p trig :: allocated(p) && p != old(s.scope) ==> fld("stick.scopeStack", "scopes", p) == old(fld("stick.scopeStack", "scopes", p))) && s.out == old(s.out) && (forall w trig :: allocated(w) ==> rbuflen(w) == old(rbuflen(w)) && rbufdata(w) == old(rbufdata(w))) && (wfail() ==> old(wfail())) && openfiles() == old(openfiles()) && (wafterfail() ==> old(wafterfail()) || old(wfail()))
+//@   loop 2 invariant frame: xinv(s) && s.scope == old(s.scope) && len(s.scope.scopes) == old(len(s.scope.scopes)) && (forall i trig :: 0 <= i && i < len(s.scope.scopes) ==> s.scope.scopes[i] == old(s.scope.scopes[i])) && s.name == old(s.name) && s.current == old(s.current) && s.env == old(s.env) && len(s.blocks) >= old(len(s.blocks)) && (forall p trig :: allocated(p) && p != old(s.scope) ==> fld("stick.scopeStack", "scopes", p) == old(fld("stick.scopeStack", "scopes", p))) && s.out == old(s.out) && (forall w trig :: allocated(w) ==> rbuflen(w) == old(rbuflen(w)) && rbufdata(w) == old(rbufdata(w))) && (wfail() ==> old(wfail())) && openfiles() == old(openfiles()) && (wafterfail() ==> old(wafterfail()) || old(wfail()))
+//@   loop 3 invariant frame: xinv(s) && s.scope == old(s.scope) && len(s.scope.scopes) == old(len(s.scope.scopes)) && (forall i trig :: 0 <= i && i < len(s.scope.scopes) ==> s.scope.scopes[i] == old(s.scope.scopes[i])) && s.name == old(s.name) && s.current == old(s.current) && s.env == old(s.env) && len(s.blocks) >= old(len(s.blocks)) && (forall p trig :: allocated(p) && p != old(s.scope) ==> fld("stick.scopeStack", "scopes", p) == old(fld("stick.scopeStack", "scopes", p))) && s.out == old(s.out) && (forall w trig :: allocated(w) ==> rbuflen(w) == old(rbuflen(w)) && rbufdata(w) == old(rbufdata(w))) && (wfail() ==> old(wfail())) && openfiles() == old(openfiles()) && (wafterfail() ==> old(wafterfail()) || old(wfail()))
+//@   loop 4 invariant frame: xinv(s) && s.scope == old(s.scope) && len(s.scope.scopes) == old(len(s.scope.scopes)) && (forall i trig :: 0 <= i && i < len(s.scope.scopes) ==> s.scope.scopes[i] == old(s.scope.scopes[i])) && s.name == old(s.name) && s.current == old(s.current) && s.env == old(s.env) && len(s.blocks) >= old(len(s.blocks)) && (forall p trig :: allocated(p) && p != old(s.scope) ==> fld("stick.scopeStack", "scopes", p) == old(fld("stick.scopeStack", "scopes", p))) && s.out == old(s.out) && (forall w trig :: allocated(w) ==> rbuflen(w) == old(rbuflen(w)) && rbufdata(w) == old(rbufdata(w))) && (wfail() ==> old(wfail())) && openfiles() == old(openfiles()) && (wafterfail() ==> old(wafterfail()) || old(wfail()))
+//@   loop 5 invariant frame: xinv(s) && s.scope == old(s.scope) && len(s.scope.scopes) == old(len(s.scope.scopes)) && (forall i trig :: 0 <= i && i < len(s.scope.scopes) ==> s.scope.scopes[i] == old(s.scope.scopes[i])) && s.name == old(s.name) && s.current == old(s.current) && s.env == old(s.env) && len(s.blocks) >= old(len(s.blocks)) && (forall p trig :: allocated(p) && p != old(s.scope) ==> fld("stick.scopeStack", "scopes", p) == old(fld("stick.scopeStack", "scopes", p))) && s.out == old(s.out) && (forall w trig :: allocated(w) ==> rbuflen(w) == old(rbuflen(w)) && rbufdata(w) == old(rbufdata(w))) && (wfail() ==> old(wfail())) && openfiles() == old(openfiles()) && (wafterfail() ==> old(wafterfail()) || old(wfail()))
 
 //@ func stick.(*state).evalFunction
 // C08: parent() and block(name) return exactly what the block body wrote into the private buffer
@@ -472,6 +483,7 @@ package stick
 //@   propagates
 //@   ensures wfail: wfail() && !old(wfail()) ==> err != nil
 //@   ensures order: wafterfail() ==> old(wafterfail()) || old(wfail())
+//@   ensures files: openfiles() == old(openfiles())
 //@   reveal cbOK
 //@   requires xinv(s)
 //@   ensures inv: xinv(s)
@@ -485,14 +497,15 @@ package stick
 // A11 (trusted, not proved): states are separate — executing on one state does not modify the list of
 // scope maps of another state's scope stack (ownership of backing arrays is not modelled).
 //@   trusts sep: forall p, i :: allocated(p) && p != old(s.scope) && 0 <= i && i < old(len(fld("stick.scopeStack", "scopes", p))) ==> fld("stick.scopeStack", "scopes", p)[i] == old(fld("stick.scopeStack", "scopes", p)[i])
-//@   loop 1 invariant frame: xinv(s) && s.scope == old(s.scope) && len(s.scope.scopes) == old(len(s.scope.scopes)) && (forall i trig :: 0 <= i && i < len(s.scope.scopes) ==> s.scope.scopes[i] == old(s.scope.scopes[i])) && s.name == old(s.name) && s.current == old(s.current) && s.env == old(s.env) && len(s.blocks) >= old(len(s.blocks)) && (forall p trig :: allocated(p) && p != old(s.scope) ==> fld("stick.scopeStack", "scopes", p) == old(fld("stick.scopeStack", "scopes", p))) && s.out == old(s.out) && (forall w trig :: allocated(w) ==> rbuflen(w) == old(rbuflen(w)) && rbufdata(w) == old(rbufdata(w))) && (wfail() ==> old(wfail())) && (wafterfail() ==> old(wafterfail()) || old(wfail()))
-//@   loop 2 invariant frame: xinv(s) && s.scope == old(s.scope) && len(s.scope.scopes) == old(len(s.scope.scopes)) && (forall i trig :: 0 <= i && i < len(s.scope.scopes) ==> s.scope.scopes[i] == old(s.scope.scopes[i])) && s.name == old(s.name) && s.current == old(s.current) && s.env == old(s.env) && len(s.blocks) >= old(len(s.blocks)) && (forall p trig :: allocated(p) && p != old(s.scope) ==> fld("stick.scopeStack", "scopes", p) == old(fld("stick.scopeStack", "scopes", p))) && s.out == old(s.out) && (forall w trig :: allocated(w) ==> rbuflen(w) == old(rbuflen(w)) && rbufdata(w) == old(rbufdata(w))) && (wfail() ==> old(wfail())) && (wafterfail() ==> old(wafterfail()) || old(wfail()))
-//@   loop 3 invariant frame: xinv(s) && s.scope == old(s.scope) && len(s.scope.scopes) == old(len(s.scope.scopes)) && (forall i trig :: 0 <= i && i < len(s.scope.scopes) ==> s.scope.scopes[i] == old(s.scope.scopes[i])) && s.name == old(s.name) && s.current == old(s.current) && s.env == old(s.env) && len(s.blocks) >= old(len(s.blocks)) && (forall p trig :: allocated(p) && p != old(s.scope) ==> fld("stick.scopeStack", "scopes", p) == old(fld("stick.scopeStack", "scopes", p))) && s.out == old(s.out) && (forall w trig :: allocated(w) ==> rbuflen(w) == old(rbuflen(w)) && rbufdata(w) == old(rbufdata(w))) && (wfail() ==> old(wfail())) && (wafterfail() ==> old(wafterfail()) || old(wfail()))
+//@   loop 1 invariant frame: xinv(s) && s.scope == old(s.scope) && len(s.scope.scopes) == old(len(s.scope.scopes)) && (forall i trig :: 0 <= i && i < len(s.scope.scopes) ==> s.scope.scopes[i] == old(s.scope.scopes[i])) && s.name == old(s.name) && s.current == old(s.current) && s.env == old(s.env) && len(s.blocks) >= old(len(s.blocks)) && (forall p trig :: allocated(p) && p != old(s.scope) ==> fld("stick.scopeStack", "scopes", p) == old(fld("stick.scopeStack", "scopes", p))) && s.out == old(s.out) && (forall w trig :: allocated(w) ==> rbuflen(w) == old(rbuflen(w)) && rbufdata(w) == old(rbufdata(w))) && (wfail() ==> old(wfail())) && openfiles() == old(openfiles()) && (wafterfail() ==> old(wafterfail()) || old(wfail()))
+//@   loop 2 invariant frame: xinv(s) && s.scope == old(s.scope) && len(s.scope.scopes) == old(len(s.scope.scopes)) && (forall i trig :: 0 <= i && i < len(s.scope.scopes) ==> s.scope.scopes[i] == old(s.scope.scopes[i])) && s.name == old(s.name) && s.current == old(s.current) && s.env == old(s.env) && len(s.blocks) >= old(len(s.blocks)) && (forall p trig :: allocated(p) && p != old(s.scope) ==> fld("stick.scopeStack", "scopes", p) == old(fld("stick.scopeStack", "scopes", p))) && s.out == old(s.out) && (forall w trig :: allocated(w) ==> rbuflen(w) == old(rbuflen(w)) && rbufdata(w) == old(rbufdata(w))) && (wfail() ==> old(wfail())) && openfiles() == old(openfiles()) && (wafterfail() ==> old(wafterfail()) || old(wfail()))
+//@   loop 3 invariant frame: xinv(s) && s.scope == old(s.scope) && len(s.scope.scopes) == old(len(s.scope.scopes)) && (forall i trig :: 0 <= i && i < len(s.scope.scopes) ==> s.scope.scopes[i] == old(s.scope.scopes[i])) && s.name == old(s.name) && s.current == old(s.current) && s.env == old(s.env) && len(s.blocks) >= old(len(s.blocks)) && (forall p trig :: allocated(p) && p != old(s.scope) ==> fld("stick.scopeStack", "scopes", p) == old(fld("stick.scopeStack", "scopes", p))) && s.out == old(s.out) && (forall w trig :: allocated(w) ==> rbuflen(w) == old(rbuflen(w)) && rbufdata(w) == old(rbufdata(w))) && (wfail() ==> old(wfail())) && openfiles() == old(openfiles()) && (wafterfail() ==> old(wafterfail()) || old(wfail()))
 
 //@ func stick.(*state).evalFilter
 //@   propagates
 //@   ensures wfail: wfail() && !old(wfail()) ==> err != nil
 //@   ensures order: wafterfail() ==> old(wafterfail()) || old(wfail())
+//@   ensures files: openfiles() == old(openfiles())
 //@   reveal cbOK
 //@   requires xinv(s)
 //@   ensures inv: xinv(s)
@@ -506,7 +519,7 @@ package stick
 // A11 (trusted, not proved): states are separate — executing on one state does not modify the list of
 // scope maps of another state's scope stack (ownership of backing arrays is not modelled).
 //@   trusts sep: forall p, i :: allocated(p) && p != old(s.scope) && 0 <= i && i < old(len(fld("stick.scopeStack", "scopes", p))) ==> fld("stick.scopeStack", "scopes", p)[i] == old(fld("stick.scopeStack", "scopes", p)[i])
-//@   loop 1 invariant frame: xinv(s) && s.scope == old(s.scope) && len(s.scope.scopes) == old(len(s.scope.scopes)) && (forall i trig :: 0 <= i && i < len(s.scope.scopes) ==> s.scope.scopes[i] == old(s.scope.scopes[i])) && s.name == old(s.name) && s.current == old(s.current) && s.env == old(s.env) && len(s.blocks) >= old(len(s.blocks)) && (forall p trig :: allocated(p) && p != old(s.scope) ==> fld("stick.scopeStack", "scopes", p) == old(fld("stick.scopeStack", "scopes", p))) && s.out == old(s.out) && (forall w trig :: allocated(w) ==> rbuflen(w) == old(rbuflen(w)) && rbufdata(w) == old(rbufdata(w))) && (wfail() ==> old(wfail())) && (wafterfail() ==> old(wafterfail()) || old(wfail()))
+//@   loop 1 invariant frame: xinv(s) && s.scope == old(s.scope) && len(s.scope.scopes) == old(len(s.scope.scopes)) && (forall i trig :: 0 <= i && i < len(s.scope.scopes) ==> s.scope.scopes[i] == old(s.scope.scopes[i])) && s.name == old(s.name) && s.current == old(s.current) && s.env == old(s.env) && len(s.blocks) >= old(len(s.blocks)) && (forall p trig :: allocated(p) && p != old(s.scope) ==> fld("stick.scopeStack", "scopes", p) == old(fld("stick.scopeStack", "scopes", p))) && s.out == old(s.out) && (forall w trig :: allocated(w) ==> rbuflen(w) == old(rbuflen(w)) && rbufdata(w) == old(rbufdata(w))) && (wfail() ==> old(wfail())) && openfiles() == old(openfiles()) && (wafterfail() ==> old(wafterfail()) || old(wfail()))
 
 //@ func stick.(*state).callMacro
 //@   propagates
@@ -517,6 +530,7 @@ package stick
 //@   asserts captured: err == nil ==> istype(r0, "string") && unbox(r0, "string") == bufstr(buf)
 //@   ensures wfail: wfail() && !old(wfail()) ==> err != nil
 //@   ensures order: wafterfail() ==> old(wafterfail()) || old(wfail())
+//@   ensures files: openfiles() == old(openfiles())
 //@   requires def: macro.MacroNode != nil
 //@   requires xinv(s)
 //@   ensures inv: xinv(s)
@@ -550,6 +564,7 @@ package stick
 //@   propagates
 //@   ensures wfail: wfail() && !old(wfail()) ==> r0 != nil
 //@   ensures order: wafterfail() ==> old(wafterfail()) || old(wfail())
+//@   ensures files: openfiles() == old(openfiles())
 //@   ensures wframe: forall w trig :: allocated(w) && w != ref(out) ==> rbuflen(w) == old(rbuflen(w)) && rbufdata(w) == old(rbufdata(w))
 //@   requires env != nil && env.Loader != nil && out != nil && allocated(ref(out)) && cbOK(env)
 // an included template runs in a state of its own: no scope stack that existed before is touched
@@ -561,6 +576,8 @@ package stick
 //@   ensures ok: err == nil ==> r0 != nil && r0.root != nil && len(r0.blocks) >= 1 && r0.macros != nil
 //@   ensures wframe: forall w trig :: allocated(w) ==> rbuflen(w) == old(rbuflen(w)) && rbufdata(w) == old(rbufdata(w))
 //@   ensures wquiet: wfail() == old(wfail()) && wafterfail() == old(wafterfail())
+// C19: no file opened on behalf of this call is still open when it returns
+//@   ensures files: openfiles() == old(openfiles())
 
 // Context API (called by user callbacks on a running state) and the public entry points: what the caller
 // of the library must provide (assumption on the environment, not proved): a loader, a writer, non-nil callbacks.
@@ -572,6 +589,7 @@ package stick
 //@   requires m.attr != nil
 //@ func stick.(*Env).Execute
 //@   propagates
+//@   ensures files: openfiles() == old(openfiles())
 //@   ensures wfail: wfail() && !old(wfail()) ==> r0 != nil
 //@   ensures wframe: forall w trig :: allocated(w) && w != ref(out) ==> rbuflen(w) == old(rbuflen(w)) && rbufdata(w) == old(rbufdata(w))
 // (dest: the destination writer exists before the call, so its identity differs from every object the call allocates)
@@ -581,6 +599,7 @@ package stick
 // rendering is copied to the destination (a failure can then only come from the destination itself).
 //@ func stick.(*Env).ExecuteSafe
 //@   propagates
+//@   ensures files: openfiles() == old(openfiles())
 // (wfail is the ghost flag "a write has failed during this call": it starts out false.)
 //@   requires start: !wfail()
 //@   ensures nothing: r0 != nil && !wfail() ==> rbuflen(ref(out)) == old(rbuflen(ref(out)))
@@ -590,7 +609,12 @@ package stick
 //@   requires api: env.Loader != nil && out != nil && cbOK(env)
 //@ func stick.(*Env).Parse
 //@   propagates
+//@   ensures files: openfiles() == old(openfiles())
 //@   requires api: env.Loader != nil
 //@ func stick.(*Env).Register
 //@   requires api: e != nil
 
+// C19: the built-in loaders hold no open file once Load has returned
+//@ func stick.(*FilesystemLoader).Load
+//@   ensures files: openfiles() == old(openfiles())
+//@   ensures ok: err == nil ==> r0 != nil
